@@ -64,8 +64,12 @@ class Tainted(Exception):
     longer be trusted, the search of this program stops (the violation has been reported)."""
 
 
+class Unmodelled(Exception):
+    """The implementation did something legitimate that the canonical state cannot express."""
+
+
 TAINTING = ("existing-object-altered", "class-defaults-altered", "shared-default-replaced",
-            "namespace-attribute-writable")
+            "shared-default-value", "namespace-attribute-writable")
 
 
 class Obj:
@@ -400,18 +404,30 @@ class Engine:
         after = self.read_imap()
         new_imap = None
         imap = S.imap
+        replaced = False
         for c, ob in imap.items():
             if after.get(c) is not ob.o:
+                replaced = True
                 self.report(S, op, "shared-default-replaced",
                             f"the shared default set of class {c} was replaced or dropped")
+        if replaced:      # (linear executions go on: follow the implementation so that it is reported once)
+            imap = {c: ob for c, ob in imap.items() if after.get(c) is ob.o}
         if len(after) != len(imap):
             new_imap = dict(imap)
             for c, o in after.items():
                 if c not in imap:
                     known = S.ids.get(id(o))
                     if known is not None and not known.d[3]:
-                        raise world.HarnessError("C16: an existing non-interned set became the interned default; "
-                                                 "the canonical state does not model that")
+                        if known.d[:3] != M.default_args(c):
+                            self.report(S, op, "shared-default-value",
+                                        f"an existing set holding {known.d[:3]} became the shared default of "
+                                        f"class {c}, expected {M.default_args(c)}", existing=True)
+                        elif self.rewind:
+                            # legitimate, but the canonical state treats "is the interned default" as a fixed
+                            # attribute of an object: give up on this program (reported as a cap)
+                            raise Unmodelled("an existing default-valued set became the interned default")
+                        new_imap[c] = known      # (linear executions go on)
+                        continue
                     nob = self.wrap(o, S.ids)
                     new_imap[c] = nob
                     if nob.d[:3] != M.default_args(c):
@@ -1050,6 +1066,8 @@ def run_program(col, spec, depth, full, incremental=True):
             eng.search(depth, incremental=incremental)
         except Tainted:
             col.inc("programs_stopped_after_alteration")
+        except Unmodelled:
+            col.inc("programs_stopped_unmodelled")
         col.inc("states", eng.nstates)
         col.inc("transitions", eng.ntrans)
         col.inc("programs")
@@ -1097,7 +1115,11 @@ def _unmerged_shard(items):
         eng = Engine(scratch, spec, rewind=True, confirm=False, full=True)
         try:
             rec = set()
-            st_m = set(eng.search(depth, incremental=True, record=rec))
+            try:
+                st_m = set(eng.search(depth, incremental=True, record=rec))
+            except (Tainted, Unmodelled):
+                col.inc("unmerged_comparisons_skipped")
+                continue
         finally:
             eng.close()
         if st_u != st_m:
@@ -1142,7 +1164,7 @@ def run(ctx):
                     small.append((s, 2))
             elif n == 1:
                 small.append((s, 3))
-            elif n <= 3 and weight <= 3:
+            elif n == 2 or (n == 3 and weight <= 2):
                 small.append((s, 2))
         small.sort(key=lambda it: -cost_estimate(it[0], it[1]))
         for col in explore.pmap(_unmerged_shard, small, chunks_per_proc=max(4, len(small))):
@@ -1152,6 +1174,10 @@ def run(ctx):
     if stopped:
         ctx.cap(f"the search of {stopped} program(s) stopped at the first operation that altered an existing "
                 "object (reported as a violation)")
+    unmod = ctx.extra.get("programs_stopped_unmodelled", 0)
+    if unmod:
+        ctx.cap(f"the search of {unmod} program(s) stopped: an existing default-valued set became the interned "
+                "default of its class, which the canonical state does not model")
     ctx.coverage["states"] = ctx.extra.pop("states", 0)
     ctx.coverage["transitions"] = ctx.extra.pop("transitions", 0)
     ctx.coverage.update(
@@ -1163,7 +1189,8 @@ def run(ctx):
                     depth={"quick": "3 (2 for 4-class programs with >= 3 owners; no variants for 4-class programs)",
                            "thorough": "4 (3 when owners + variant extras exceed 3, or exceed 2 in 4-class programs)"}[tier],
                     unmerged={"quick": "depth 2, programs with 1 class or 2 classes and <= 1 owner",
-                              "thorough": "depth 3 for 1-class programs, depth 2 for <= 3 classes"}[tier]))
+                              "thorough": "depth 3 for 1-class programs, depth 2 for 2-class programs and for 3-class "
+                                          "programs with <= 2 owners/variant extras"}[tier]))
     ctx.rule = ("evaluations = operations executed on the real objects (identical calls - same operand objects, "
                 "same interned map - executed once) + namespace class definitions attempted; distinct = distinct "
                 "canonical pool states (set of object values + interned classes) per program, plus distinct menu "
